@@ -1755,6 +1755,11 @@ func (d *dDriver) finish() {
 		d.restart()
 	}
 	d.obs()
+	// the scenario is over: nothing of this incarnation may be recorded (or probe the removed scratch files) any more;
+	// a write a changed daemon left running in the background stays where it is
+	d.s.x.mu.Lock()
+	d.s.x.dead = true
+	d.s.x.mu.Unlock()
 	d.s.shutdown(true)
 }
 
